@@ -92,6 +92,31 @@ theorem skel_cfg_reconcile (s : Sys) (t : Tgt) (c : Cfg) (env : Env) (hc : s.cfg
     have h3 : cfgStateCode c.state = 3 ↔ c.state = .persisted := by cases c.state <;> simp [cfgStateCode]
     by_cases h1 : c.state = .persisted <;> gsplit h2 : c.appliedTerm < c.term <;> (try simp [h3]) <;> skel_cfg
 
+/-- `reconcileConfiguration` when the first re-synchronisation request is not accepted: the
+    invocation ends there — with the error (the configuration stays SYNCHRONIZING and is retried)
+    unless the answer is the superseded-master refusal — and nothing is written: in particular the
+    configuration is NOT reported SYNCHRONIZED.  (The twin does not record a request that was not
+    accepted; the traces agree up to that request.) -/
+theorem skel_cfg_reconcile_refused (s : Sys) (t : Tgt) (c : Cfg) (env : Env) (rel : Rel) (hc : s.cfg? t = some c)
+    (hp : env.persistent = false) (h1 : c.state = .synchronizing) (h2 : c.master ≠ 0) (h3 : c.applied ≠ 0)
+    (hr : s.rel? c.master = some rel) (hconn : rel.conn = true)
+    (hs : env.syncOk = 0) (hd : env.dev ≠ .ok) (hne : groupByIndex c.aview ≠ []) :
+    proj (v2sk_cfg_reconcile (gCfgOf c (s.rel? c.master) env true)) =
+      .write "conn.Set" :: planTraceCfg c false (cfgReconcile s t env) := by
+  have hg := permute_ne_nil env.ordU _ hne
+  have hlen : ¬ (0 ≥ (permute env.ordU (groupByIndex c.aview)).length) := by
+    cases hl : permute env.ordU (groupByIndex c.aview) with
+    | nil => exact absurd hl hg
+    | cons x t => simp
+  unfold v2sk_cfg_reconcile cfgReconcile
+  gCfgOf_atoms
+  simp only [hc, hp, hr]
+  have hdev : env.dev = .retry ∨ env.dev = .wait ∨ ∃ f, env.dev = .fail f := by
+    cases h : env.dev <;> simp_all
+  rcases hdev with hdev | hdev | ⟨f, hdev⟩ <;>
+    simp [hdev, h1, h2, h3, hconn, hs, hlen, syncEffects, cfgStateCode, proj, proj_append, plumbing, planTraceCfg,
+      effToksCfg, collapse, Plan.nop]
+
 /-- `mastReconcile` with what it reads from the state as arguments -/
 def mastPlan (c? : Option Cfg) (live : List Rel) (pick : Nat) : Plan :=
   match c? with
